@@ -36,7 +36,7 @@ def _attr_error(p):
 
 
 def gen(rng):
-    kind = rng.choice(["bin", "bin", "un", "un", "nonfwd", "nocancel", "timeout"])
+    kind = rng.choice(["bin", "bin", "un", "un", "nonfwd", "nocancel", "timeout", "chain"])
     p = {"kind": kind, "state": rng.choice(["resolved", "resolved", "pending", "failed"]), "vi": rng.randrange(len(VALUES))}
     if kind == "bin":
         p["op"] = rng.randrange(len(BIN))
@@ -46,6 +46,12 @@ def gen(rng):
     elif kind == "nonfwd":
         p["op"] = rng.randrange(len(NONFWD))
         p["state"] = "pending"
+    elif kind == "chain":
+        # wrappers stacked on f WHILE another thread resolves it: f_proxy(f_nocancel(f_map(f))) ... then a forwarded operation
+        p["wrappers"] = [rng.choice(["nocancel", "map", "proxy"]) for _ in range(rng.randint(1, 3))]
+        p["op"] = rng.randrange(len(BIN))
+        p["oi"] = rng.randrange(len(OTHERS))
+        p["state"] = rng.choice(["pending", "pending", "failed"])
     elif kind == "timeout":
         p["t"] = rng.choice([0, 0.0, 1, 2, 3, 5])
     elif kind == "nocancel":
@@ -96,6 +102,20 @@ def execute(p, chooser):
             else:
                 f.set_result(v)
 
+        if kind == "chain":
+            from more_executors.futures import f_map
+            env = det.spawn("e0", resolve)
+            g = f
+            for w in p["wrappers"]:
+                g = f_nocancel(g) if w == "nocancel" else f_map(g, lambda x: x) if w == "map" else f_proxy(g)
+            px = f_proxy(g, timeout=50)
+            name, fn = BIN[p["op"]]
+            o = OTHERS[p["oi"]]
+            got = outcome(lambda: fn(px, o))
+            env.join()
+            want = ("e", "KeyError") if p["state"] == "failed" else outcome(lambda: fn(v2, o))
+            obs["res"] = ("op", "chain:" + name, got, want)
+            return
         if kind == "timeout":
             px = f_proxy(f, timeout=p["t"])
             t0 = det.now()
